@@ -320,10 +320,80 @@ theorem hostport_default (h : List Char) (d : DefPort) (hne : h ≠ [])
 example : parseHostPort (some (escapeIPv6 "::1".toList)) (.int 1234)
     = .ok (some "::1".toList, some 1234) := by decide
 
+/-- A bare (unescaped) IPv6 text is taken whole as the host and gets the default port — the
+    docstring's `parse_host_port('2001:db8:85a3::8a2e:370:7334', default_port=1234)` — because an
+    accepted IPv6 text never contains exactly one ':'. -/
+theorem hostport_default_unescaped_v6 (a : List Char) (d : DefPort) (h6 : pton6 a = true) :
+    parseHostPort (some a) d = (defaultValue d).map (fun q => (some a, q)) := by
+  have hdf : convPort d .dflt = defaultValue d := by cases d <;> rfl
+  have hne : a ≠ [] := by intro e; subst e; simp [pton6] at h6
+  have hhead : a.head? ≠ some '[' := by
+    intro hh
+    exact (lemma_okV6Char_ne _ (lemma_pton6_chars a h6 _ (List.mem_of_head? hh))).2.2 rfl
+  rw [lemma_php_unbracketed a d hne hhead]
+  unfold parseUnbracketed
+  rw [if_neg (lemma_pton6_count_ne_one a h6), hdf]
+
+example : pton6 "2001:db8:85a3::8a2e:370:7334".toList = true := by decide
+
 /-- `None` or the empty string give `(None, None)` whatever the default port -/
 theorem hostport_empty (d : DefPort) :
     parseHostPort none d = .ok (none, none) ∧ parseHostPort (some []) d = .ok (none, none) :=
   ⟨rfl, rfl⟩
+
+theorem lemma_pyInt_no_indexError (s : List Char) : pyInt s ≠ .error .indexError := by
+  unfold pyInt
+  split
+  · simp
+  · simp only
+    split
+    · simp
+    · split <;> simp
+
+theorem lemma_convPort_no_indexError (d : DefPort) (p : PortSrc) :
+    convPort d p ≠ .error .indexError := by
+  cases p with
+  | text s =>
+    have := lemma_pyInt_no_indexError s
+    simp only [convPort]
+    cases h : pyInt s <;> simp_all [Except.map]
+  | dflt =>
+    cases d with
+    | none => simp [convPort]
+    | int n => simp [convPort]
+    | str s =>
+      have := lemma_pyInt_no_indexError s
+      simp only [convPort]
+      cases h : pyInt s <;> simp_all [Except.map]
+
+/-- the model's IndexError outcome (`_port.split(':')[1]` out of range) cannot happen: the code
+    only indexes after checking `':' in _port` -/
+theorem hostport_no_indexError (address : Option (List Char)) (d : DefPort) :
+    parseHostPort address d ≠ .error .indexError := by
+  have hmap : ∀ (p : PortSrc) (f : Option Int → Option (List Char) × Option Int),
+      (convPort d p).map f ≠ .error .indexError := by
+    intro p f
+    have := lemma_convPort_no_indexError d p
+    cases h : convPort d p <;> simp_all [Except.map]
+  unfold parseHostPort
+  split
+  · simp
+  · simp
+  · split
+    · unfold parseBracketed
+      split
+      · split
+        · next host port _ hin =>
+          obtain ⟨a, b, rest, e⟩ := lemma_splitOn_two ':' port hin
+          rw [e]; exact hmap _ _
+        · exact hmap _ _
+      · simp
+    · unfold parseUnbracketed
+      split
+      · split
+        · exact hmap _ _
+        · simp
+      · exact hmap _ _
 
 /-! ## urlsplit wrapper and params() -/
 
